@@ -2027,7 +2027,7 @@ class C08(Property):
                 self.bump('form:%s=%s' % (k, v))
         for tok in case.get('pre') or ():
             self.bump('pre:' + tok)
-        if obs.get('kwdep'):
+        if obs.get('kwdep') and not fresh_enter:
             # the outcome must not depend on HOW the arguments are passed, nor on the debugging keyword `trace`
             form = case['form']
             name = 'research' if case['mode'] == 'Q' else 'remap'
@@ -2168,10 +2168,11 @@ class C08(Property):
         except TypeError:
             return None                 # the callbacks produced something unhashable inside a set: no verdict
         got = '!' + obs['exc'] if 'exc' in obs else obs['res']
-        first_bad = bool(obs.get('unstable')) and obs['unstable'][0] != exp
+        pair = obs.get('unstable') or obs.get('kwdep')      # [outcome of the first call, of the judged call]
+        first_bad = bool(pair) and pair[0] != exp
         if (got != exp or first_bad) and case['enter'][0] in FRESH and obs.get('res_alive') == exp:
             if got == exp:
-                got = obs['unstable'][0]
+                got = pair[0]
             # the call is right as soon as the caller keeps the temporaries alive that enter hands out: remap mistook a
             # temporary for an object it had rebuilt earlier (same id(), the earlier temporary being dead)
             return Failure('enter_temp_id_reuse', 'remap with an enter callback that hands out temporary copies of the '
@@ -2180,9 +2181,11 @@ class C08(Property):
         if got != exp:
             return Failure('custom_callbacks', 'remap with enter=%s exit=%s returned %s, the recursive rebuild with the '
                            'same callbacks gives %s' % (case['enter'], case['exit'], got, exp))
-        if obs.get('unstable'):
-            return Failure('call_state', 'two identical remap calls in a row on the same input gave different outcomes: '
-                           'first %s, then %s' % (obs['unstable'][0], obs['unstable'][1]))
+        if pair:
+            return Failure('call_state' if obs.get('unstable') else 'keyword_dependent',
+                           'two remap calls in a row on the same input (%s) gave different outcomes: first %s, then %s'
+                           % ('identical' if obs.get('unstable') else 'plain, then in the form ' + describe_form(case['form']),
+                              pair[0], pair[1]))
         return None
 
     @staticmethod
